@@ -19,7 +19,7 @@ CMPS = ('=', '<>', '<', '>', '<=', '>=')
 OPS = ARITH + ('&',) + CMPS
 
 BOUNDS = {
-    'quick': '48 error producers (3 operator-made, 4 returned by built-ins, 3 raised by built-ins, 8 raised + 8 returned '
+    'quick': '72 error producers (incl. fresh error objects returned by a custom function or supplied as variable / cell value) (3 operator-made, 4 returned by built-ins, 3 raised by built-ins, 8 raised + 8 returned '
              'by a custom function, 8 raised as fresh error objects, 8 host variables, 8 host cells; 7 literals separately) x 11 operators x '
              '{left,right} + unary minus + 8 two-level contexts, x 8 observers; all ordered pairs of 8 codes x 11 operators '
              'for the left-wins rule; non-error controls',
@@ -52,10 +52,15 @@ def producers(env):
     for i, c in enumerate(CODES8):
         # a custom function raising an error object OF ITS OWN MAKING (same code, not the library's shared object)
         P.append(dict(text='FRAISEF(%d)' % i, code=c, kind='custom-raises-fresh'))
+    for i, c in enumerate(CODES8):
+        # ... or RETURNING one, or the host handing one in as a variable / cell value
+        P.append(dict(text='FRETF(%d)' % i, code=c, kind='custom-returns-fresh'))
+        P.append(dict(text='fv%s' % 'abcdefgh'[i], code=c, kind='host-variable-fresh'))
+        P.append(dict(text='$F$%d' % (i + 1), code=c, kind='host-cell-fresh'))
     return P
 
 
-NPRODUCERS = 48
+NPRODUCERS = 72
 
 
 LITERALS = ['#NULL!', '#DIV/0!', '#VALUE!', '#REF!', '#NAME?', '#NUM!', '#N/A', '#ERROR!', '#GETTING_DATA']
@@ -72,11 +77,17 @@ def bind(env):
 
     def fraisef(i):
         raise env.err.XLError(CODES8[int(i)])
+
+    def fretf(i):
+        return env.err.XLError(CODES8[int(i)])
     vars = dict(('ev%s' % 'abcdefgh'[i], errs[i]) for i in range(8))
     vars['vok'] = 5
     cells = dict(('$E$%d' % (i + 1), errs[i]) for i in range(8))
     cells.update(dict(('E%d' % (i + 1), errs[i]) for i in range(8)))
-    return vars, {'FRAISE': fraise, 'FRET': fret, 'FRAISEF': fraisef}, cells
+    for i in range(8):
+        vars['fv%s' % 'abcdefgh'[i]] = env.err.XLError(CODES8[i])
+        cells['$F$%d' % (i + 1)] = env.err.XLError(CODES8[i])
+    return vars, {'FRAISE': fraise, 'FRET': fret, 'FRAISEF': fraisef, 'FRETF': fretf}, cells
 
 
 def benign(op):
